@@ -1660,6 +1660,12 @@ func (g *c17gen) emitStatsFacts() {
 	// (9) frequencies and norms are loaded unless the score mode is "none" (then Score sees freq 0, norm 0: outside 1 <= f)
 	add("freq-norm-loaded-unless-score-none", strings.Contains(nbT, `needFreqNorm := options.Score != "none"`))
 
+	// the scorer a term searcher uses under score mode "none": the similarity's (pinned tree: Score(0, 0)) or, after the
+	// candidate repair work/C17/fix-score-none-constant-scorer.diff, ConstantScorer(0); the driver's `nscore` model follows it
+	constZero := strings.Contains(nbT, "if !needFreqNorm && scorer == nil { scorer = similarity.ConstantScorer(0) }")
+	g.emitted = append(g.emitted, fmt.Sprintf("/-- under score mode \"none\" `NewTermSearcherBytes` replaces the similarity's scorer by `ConstantScorer(0)` -/\ndef scoreNoneConstantZero : Bool := %v\n\n", constZero))
+	g.c.Summary["scoreNoneConstantZero"] = constZero
+
 	g.writeFacts("statsFacts", "how package index and the term searcher obtain `N`, `sumTotalTermFreq` and `n` (index/snapshot.go, index/postings.go, search/searcher/search_term.go): (fact, holds)", facts)
 }
 
